@@ -12,6 +12,7 @@ import (
 
 	cryptocodec "github.com/cosmos/cosmos-sdk/crypto/codec"
 	sdk "github.com/cosmos/cosmos-sdk/types"
+	"github.com/cosmos/cosmos-sdk/types/query"
 
 	opchild "github.com/initia-labs/OPinit/x/opchild"
 	opchildtypes "github.com/initia-labs/OPinit/x/opchild/types"
@@ -531,6 +532,35 @@ func (y *vsSys) indexes(s *vsState) *engine.Violation {
 			return viol("indexes-one-to-one", "Validator query for %s disagrees with the store (err=%v)", opName(val.OperatorAddress), err)
 		}
 		n++
+	}
+	// Query/Validators, whole and paged one by one, lists exactly the stored validators
+	var stored []string
+	for _, val := range vals {
+		stored = append(stored, val.OperatorAddress)
+	}
+	for _, lim := range []uint64{0, 1, 2} {
+		var got []string
+		var key []byte
+		for guard := 0; guard < 64; guard++ {
+			req := &opchildtypes.QueryValidatorsRequest{}
+			if lim > 0 {
+				req.Pagination = &query.PageRequest{Key: key, Limit: lim}
+			}
+			qv, err := s.w.Q.Validators(ctx, req)
+			if err != nil {
+				return viol("state-readable", "Validators query (limit %d): %v", lim, err)
+			}
+			for _, qval := range qv.Validators {
+				got = append(got, qval.OperatorAddress)
+			}
+			if lim == 0 || qv.Pagination == nil || len(qv.Pagination.NextKey) == 0 {
+				break
+			}
+			key = qv.Pagination.NextKey
+		}
+		if strings.Join(got, ",") != strings.Join(stored, ",") {
+			return viol("indexes-one-to-one", "Query/Validators (page size %d) lists %d validators %v, the store holds %d", lim, len(got), got, len(stored))
+		}
 	}
 	m := 0
 	var v *engine.Violation
